@@ -97,6 +97,12 @@ def check_case(mode, layout, encs, exp, d):
                 f.write(bytes(b for e in encs for b in e))
     except Exception as e:
         return 'write-raises/%s' % type(e).__name__, repr(e)
+    # files of equal size and equal time stamp (a coarse file-system clock, cp -p, rsync -t)
+    # are different files all the same
+    try:
+        os.utime(path, ns=(1_600_000_000 * 10 ** 9, 1_600_000_000 * 10 ** 9))
+    except OSError:
+        pass
     if mode == 1:
         try:
             with open(path, 'rb') as f:
